@@ -40,6 +40,9 @@ func multiProfile(c *core.Ctx, g *gen.Gen) *gen.Node {
 	k := gen.MultiKinds[r.Intn(len(gen.MultiKinds))]
 	if k == "goerrorfmulti" {
 		kids = kids[:2]
+	} else if r.Intn(8) == 0 {
+		// the SAME error twice, in adjacent positions (the builder yields one object for one descriptor node)
+		kids = append([]*gen.Node{kids[0]}, kids...)
 	}
 	n := g.Make(k, kids, nil)
 	for i, d := 0, r.Intn(4); i < d; i++ {
